@@ -26,15 +26,29 @@
 //! h + offd, whatever B advertises (h = the height at which B looks at the HTLC).  `wait` blocks are
 //! mined between A's commitment dance and B's decision (the HTLC was stuck upstream); an outgoing
 //! expiry at or below the tip (offd <= 0) needs them, so wait defaults to max(0, 1 - offd).
+//!
+//! Other per-block work of the channel coinciding with a deadline block (optional fields):
+//!   "co": "splice" (B splices funds out of the channel before the payment; the splice transaction is mined
+//!         by the harness) | "open" (B opens a second channel with the same peer; its funding transaction
+//!         is mined by the harness),
+//!   "cos": "dn"|"up" (the channel / peer concerned: B-C or A-B), "cod": minimum depth every node asks for
+//!   (1: channel_ready / splice_locked come out of transactions_confirmed; 6: out of best_block_updated),
+//!   "con": which confirmation of that transaction is the block h + coh (h = the height at which B decides):
+//!   con = cod: the block on which B emits splice_locked / channel_ready; cod = 1, con = 6: the block on which
+//!   the announcement depth is reached.  Enough blocks are mined before the payment for that to be possible.
+//!   "style": "best"|"txs"|"listen": how blocks are delivered to the nodes (Confirm with best_block_updated
+//!   first, Confirm with transactions_confirmed first, Listen::block_connected).
 
 use bitcoin::hashes::Hash as _;
-use bitcoin::{OutPoint, Transaction, Txid};
+use bitcoin::{Amount, OutPoint, Transaction, TxOut, Txid};
 use lightning::chain::chaininterface::TransactionType;
 use lightning::events::{ClosureReason, Event, HTLCHandlingFailureReason};
 use lightning::ln::channelmanager::PaymentId;
 use lightning::ln::functional_test_utils::*;
 use lightning::ln::msgs::{self, BaseMessageHandler, ChannelMessageHandler, ErrorAction, MessageSendEvent};
 use lightning::ln::outbound_payment::RecipientOnionFields;
+use lightning::ln::splicing_tests::{initiate_splice_out, splice_channel};
+use lightning::util::wallet_utils::WalletSourceSync;
 use lightning::ln::types::ChannelId;
 use lightning::routing::router::{Path, PaymentParameters, Route, RouteHop, RouteParameters};
 use lightning::types::features::{ChannelFeatures, NodeFeatures};
@@ -59,6 +73,10 @@ enum Wire {
 	RAA(msgs::RevokeAndACK),
 	Reestablish(msgs::ChannelReestablish),
 	Error(msgs::ErrorMessage),
+	ChannelReady(msgs::ChannelReady),
+	AnnSigs(msgs::AnnouncementSignatures),
+	SpliceLocked(msgs::SpliceLocked),
+	TxSignatures(msgs::TxSignatures),
 	Other,
 }
 
@@ -71,6 +89,8 @@ struct MemTx {
 	seen: u32,
 	/// a commitment transaction with an output of exactly the forwarded HTLC's value
 	htlc: bool,
+	/// a set-up transaction (splice / funding of a second channel) is mined in exactly this block
+	at: Option<u32>,
 }
 
 struct Net {
@@ -98,6 +118,10 @@ struct Net {
 	log: Vec<Value>,
 	chan_ids: Vec<ChannelId>,
 	fundings: Vec<OutPoint>,
+	/// funding outputs created by a splice of channel .1
+	alt_fundings: Vec<(OutPoint, usize)>,
+	/// set-up transactions (mined by the harness at a chosen height, whoever rebroadcasts them)
+	setup_txids: HashSet<Txid>,
 	scids: Vec<u64>,
 	c1: u32,
 	c2: u32,
@@ -168,6 +192,17 @@ impl Net {
 				let r = std::mem::take(&mut self.last_reason);
 				self.ev(json!({"ev":"resolve","dir":"up","kind":kind,"h":h,"reason":r}));
 			}
+			// the other per-block duties of B's channels: what it sent and on which block
+			let duty = match &w {
+				Wire::SpliceLocked(m) => Some(("splice_locked", m.channel_id)),
+				Wire::ChannelReady(m) => Some(("channel_ready", m.channel_id)),
+				Wire::AnnSigs(m) => Some(("announcement_signatures", m.channel_id)),
+				_ => None,
+			};
+			if let Some((what, cid)) = duty {
+				let (h, c) = (self.height.max(self.tip[1]), self.chan_name(&cid));
+				self.ev(json!({"ev":"co","what":what,"chan":c,"to":to,"h":h}));
+			}
 		}
 		if self.silent[from] || self.silent[to] {
 			return;
@@ -203,6 +238,10 @@ impl Net {
 						_ => {},
 					},
 					MessageSendEvent::SendChannelUpdate { node_id, .. } => self.enqueue(i, &node_id, Wire::Other),
+					MessageSendEvent::SendChannelReady { node_id, msg } => self.enqueue(i, &node_id, Wire::ChannelReady(msg)),
+					MessageSendEvent::SendAnnouncementSignatures { node_id, msg } => self.enqueue(i, &node_id, Wire::AnnSigs(msg)),
+					MessageSendEvent::SendSpliceLocked { node_id, msg } => self.enqueue(i, &node_id, Wire::SpliceLocked(msg)),
+					MessageSendEvent::SendTxSignatures { node_id, msg } => self.enqueue(i, &node_id, Wire::TxSignatures(msg)),
 					_ => {},
 				}
 			}
@@ -220,11 +259,16 @@ impl Net {
 
 	fn on_broadcast(&mut self, node: usize, tx: Transaction, ty: Option<TransactionType>) {
 		let txid = tx.compute_txid();
+		// a splice / funding transaction of the set-up is in the harness' hands (mined at the chosen height)
+		if self.setup_txids.contains(&txid) {
+			return;
+		}
 		let chan_of_type = match ty {
 			Some(TransactionType::UnilateralClose { channel_id, .. }) | Some(TransactionType::Claim { channel_id, .. }) => self.chan_name(&channel_id),
 			_ => "?",
 		};
-		let funding = tx.input.iter().find_map(|i| self.fundings.iter().position(|f| *f == i.previous_output));
+		let funding = tx.input.iter().find_map(|i| self.fundings.iter().position(|f| *f == i.previous_output)
+			.or_else(|| self.alt_fundings.iter().find(|(f, _)| *f == i.previous_output).map(|(_, c)| *c)));
 		let (kind, chan): (&'static str, &'static str) = if let Some(c) = funding {
 			self.commit_txids.insert(txid);
 			("commitment", if c == 0 { "up" } else { "dn" })
@@ -241,7 +285,7 @@ impl Net {
 		}
 		// a rebroadcast / fee bump of something already pending keeps its original schedule
 		let same = self.mempool.iter().position(|m| {
-			m.node == node && m.tx.input.iter().any(|i| tx.input.iter().any(|j| j.previous_output == i.previous_output))
+			m.node == node && m.at.is_none() && m.tx.input.iter().any(|i| tx.input.iter().any(|j| j.previous_output == i.previous_output))
 		});
 		if same.is_some() || self.confirmed.contains(&txid) {
 			return;
@@ -255,7 +299,7 @@ impl Net {
 		self.ev(json!({"ev":"bcast","node":node,"chan":chan,"kind":kind,"h":h,"locktime":tx.lock_time.to_consensus_u32(),"htlc":htlc}));
 		if node == 1 && chan == "dn" && kind == "commitment" && self.dn_bcast_h.is_none() { self.dn_bcast_h = Some(h); }
 		let seen = self.height;
-		self.mempool.push(MemTx { tx, node, chan, kind, seen, htlc });
+		self.mempool.push(MemTx { tx, node, chan, kind, seen, htlc, at: None });
 	}
 
 	fn on_event(&mut self, i: usize, e: Event) {
@@ -338,6 +382,10 @@ impl Net {
 			Wire::RAA(m) => n.handle_revoke_and_ack(from_pk, &m),
 			Wire::Reestablish(m) => n.handle_channel_reestablish(from_pk, &m),
 			Wire::Error(m) => n.handle_error(from_pk, &m),
+			Wire::ChannelReady(m) => n.handle_channel_ready(from_pk, &m),
+			Wire::AnnSigs(m) => n.handle_announcement_signatures(from_pk, &m),
+			Wire::SpliceLocked(m) => n.handle_splice_locked(from_pk, &m),
+			Wire::TxSignatures(m) => n.handle_tx_signatures(from_pk, &m),
 			Wire::Other => {},
 		}
 		self.drain();
@@ -399,11 +447,11 @@ impl Net {
 				Some(m.seen.max(pc))
 			};
 			let delay = if m.kind == "commitment" { self.c1 } else { self.c2 };
-			due.push(ready.map(|r| r + delay));
+			due.push(if m.at.is_some() { m.at } else { ready.map(|r| r + delay) });
 		}
 		for k in 0..self.mempool.len() {
 			let m = &self.mempool[k];
-			if Some(m.node) != adv { continue; }
+			if Some(m.node) != adv || m.at.is_some() { continue; }
 			if m.kind == "commitment" { due[k] = None; continue; }
 			if due[k].is_none() { continue; }
 			let rival = (0..self.mempool.len()).filter(|&j| self.mempool[j].node != m.node
@@ -418,7 +466,7 @@ impl Net {
 		for k in order {
 			let m = &self.mempool[k];
 			match due[k] { Some(dh) if dh <= newh => {}, _ => continue }
-			if m.tx.lock_time.is_block_height() && m.kind != "commitment" && m.tx.lock_time.to_consensus_u32() >= newh { continue; }
+			if m.tx.lock_time.is_block_height() && m.kind != "commitment" && m.at.is_none() && m.tx.lock_time.to_consensus_u32() >= newh { continue; }
 			if m.tx.input.iter().any(|i| self.spent.contains(&i.previous_output)) { continue; }
 			for i in m.tx.input.iter() { self.spent.insert(i.previous_output); }
 			self.confirmed.insert(m.tx.compute_txid());
@@ -518,18 +566,23 @@ impl Net {
 	}
 }
 
-fn build(n: usize, d: u16) -> Net {
+fn build(n: usize, d: u16, depth: u32, style: &str) -> Net {
 	let cfgs = leak(create_chanmon_cfgs(n));
 	let node_cfgs = leak(create_node_cfgs(n, cfgs));
 	let mut uc = test_legacy_channel_config();
 	uc.channel_config.forwarding_fee_base_msat = 1000;
 	uc.channel_config.forwarding_fee_proportional_millionths = 0;
 	uc.channel_config.cltv_expiry_delta = d;
+	uc.channel_handshake_config.minimum_depth = depth;
 	let ucs: Vec<Option<lightning::util::config::UserConfig>> = (0..n).map(|_| Some(uc.clone())).collect();
 	let mgrs = leak(create_node_chanmgrs(n, node_cfgs, &ucs));
 	let nodes = create_network(n, node_cfgs, mgrs);
 	for nd in nodes.iter() {
-		*nd.connect_style.borrow_mut() = ConnectStyle::BestBlockFirst;
+		*nd.connect_style.borrow_mut() = match style {
+			"txs" => ConnectStyle::TransactionsFirst,
+			"listen" => ConnectStyle::FullBlockViaListen,
+			_ => ConnectStyle::BestBlockFirst,
+		};
 	}
 	let mut chan_ids = Vec::new();
 	let mut scids = Vec::new();
@@ -556,7 +609,7 @@ fn build(n: usize, d: u16) -> Net {
 	Net {
 		nodes, queues: HashMap::new(), silent: vec![false; n], held: vec![false; n], test_hash: [0u8; 32], up_id: None, dn_id: None, frozen: vec![false; n], tip: vec![top; n], height: top,
 		history: Vec::new(), mempool: Vec::new(), spent: HashSet::new(), confirmed: HashSet::new(), conf_height: HashMap::new(), commit_txids: HashSet::new(),
-		log: Vec::new(), chan_ids, fundings, scids, c1: 1, c2: 1, a_sent: false, a_failed: false, c_claimed_event: false,
+		log: Vec::new(), chan_ids, fundings, alt_fundings: Vec::new(), setup_txids: HashSet::new(), scids, c1: 1, c2: 1, a_sent: false, a_failed: false, c_claimed_event: false,
 		c_paid_onchain: false, dn_fulfilled: false, last_reason: String::new(), adversary: None, preimage: [0u8; 32],
 		dn_amt_sat: 0, dn_bcast_h: None, dn_gone_h: None,
 	}
@@ -582,15 +635,65 @@ fn run_case(run: u64, s: &Value, net_out: &mut Option<Net>) {
 	// height at which B decides
 	let wait = if role == "fwd" && dn != "cell" { geti(s, "wait", 0).max(1 - offd).max(0) } else { 0 };
 	let n = if role == "fwd" { 3 } else { 2 };
-	*net_out = Some(build(n, d));
+	// other per-block work of one of B's channels, placed relative to the height at which B decides
+	let co = s["co"].as_str().unwrap_or("").to_string();
+	let cos = if role == "final" { "up".to_string() } else { s["cos"].as_str().unwrap_or("dn").to_string() };
+	let cod = if co.is_empty() { 6 } else { geti(s, "cod", 6).max(1) as u32 };
+	let con = geti(s, "con", cod as i64).max(1);
+	let coh = geti(s, "coh", 0);
+	let style = s["style"].as_str().unwrap_or("best").to_string();
+	*net_out = Some(build(n, d, cod, &style));
 	let net = net_out.as_mut().unwrap();
 	net.c1 = geti(s, "c1", 1) as u32;
 	net.c2 = geti(s, "c2", 1) as u32;
 	let c = lightning::verif::consts();
 	net.ev(json!({"ev":"case","role":role,"up":up,"dn":dn,"d":d,"c1":net.c1,"c2":net.c2,"wait":wait,"h":net.height,
+		"co":co,"cos":cos,"cod":cod,"con":con,"coh":coh,"style":style,
 		"consts":{"CCB":c.cltv_claim_buffer,"LGP":c.latency_grace_period_blocks,"MBC":c.max_blocks_for_conf,
 			"ARD":c.anti_reorg_delay,"HFB":c.htlc_fail_back_buffer,"MIND":c.min_cltv_expiry_delta,
 			"MINF":c.min_final_cltv_expiry_delta,"FAR":c.cltv_far_far_away}}));
+	if !co.is_empty() {
+		let peer = if cos == "up" { 0usize } else { 2usize };
+		let ci = if peer == 0 { 0usize } else { 1usize };
+		let cid = net.chan_ids[ci];
+		let tx = if co == "splice" {
+			// B splices some of its funds out of the channel: negotiated and signed now, mined by the harness
+			let outputs = vec![TxOut { value: Amount::from_sat(25_000), script_pubkey: net.nodes[1].wallet_source.get_change_script().unwrap() }];
+			let contribution = initiate_splice_out(&net.nodes[1], &net.nodes[peer], cid, outputs).unwrap();
+			let (tx, new_script) = splice_channel(&net.nodes[1], &net.nodes[peer], cid, contribution);
+			let txid = tx.compute_txid();
+			for (vout, o) in tx.output.iter().enumerate() {
+				if o.script_pubkey == new_script { net.alt_fundings.push((OutPoint { txid, vout: vout as u32 }, ci)); }
+			}
+			tx
+		} else {
+			// B opens a second channel with the same peer: funded and signed now, mined by the harness
+			create_chan_between_nodes_with_value_init(&net.nodes[1], &net.nodes[peer], 300_000, 100_000_000)
+		};
+		for nd in net.nodes.iter() {
+			nd.tx_broadcaster.txn_broadcasted.lock().unwrap().clear();
+			nd.tx_broadcaster.txn_types.lock().unwrap().clear();
+			nd.chain_monitor.added_monitors.lock().unwrap().clear();
+		}
+		// enough blocks before the payment for the chosen confirmation to land on block h + coh
+		let pre = (con - coh - wait as i64).max(0) as u32;
+		let h_dec = net.height + pre + wait as u32;
+		let at = (h_dec as i64 + coh - con + 1) as u32;
+		net.setup_txids.insert(tx.compute_txid());
+		let seen = net.height;
+		net.mempool.push(MemTx { tx, node: 1, chan: if ci == 0 { "up" } else { "dn" }, kind: if co == "splice" { "splice" } else { "open" }, seen, htlc: false, at: Some(at) });
+		net.drain();
+		for _ in 0..pre {
+			net.block(&[0, 1, 2]);
+		}
+		// a locked splice gives the channel a new short channel id
+		for k in 0..net.chan_ids.len() {
+			let cidk = net.chan_ids[k];
+			if let Some(scid) = net.nodes[1].node.list_channels().iter().find(|cd| cd.channel_id == cidk).and_then(|cd| cd.short_channel_id) {
+				net.scids[k] = scid;
+			}
+		}
+	}
 
 	// ---- the payment, with hand-chosen CLTVs
 	// "dust": below the dust limit of every commitment transaction (354 sat + the HTLC transaction's fee)
@@ -731,6 +834,12 @@ fn run_case(run: u64, s: &Value, net_out: &mut Option<Net>) {
 			if has_test {
 				net.nodes[2].node.claim_funds(preimage);
 				net.pump(&[0, 1, 2]);
+			}
+			// whatever became of the waiting forward, A's HTLC has to be resolved in time: go on until it is
+			// (or until A had every reason to give the channel up)
+			let stop = eu + 6;
+			while net.height < stop && !net.log.iter().any(|e| e["ev"] == "resolve" && e["dir"] == "up") {
+				net.block(&[0, 1, 2]);
 			}
 		} else {
 			net.held[2] = false;
